@@ -36,6 +36,8 @@ impl<'de, R: Reader<'de>> Parser<R> {
             // Err: no well-formed string can continue from this backslash
             res.is_err() ==> str_end(old(self).read.data(), old(self).read.idx() - 1).is_none(),
             final(self).read.idx() >= old(self).read.idx(),
+            // every error is made by Parser::error: positioned inside the input (C20)
+            res.is_err() ==> err_ok(res->Err_0, old(self).read.data()),
 //@before /return perr!\(self, EofWhileParsing\);/ #1
                     proof { reveal_with_fuel(str_end, 2); }
 //@forname? 1 it
@@ -56,6 +58,8 @@ impl<'de, R: Reader<'de>> Parser<R> {
             res.is_ok() ==> final(self).read.idx() == str_end(old(self).read.data(), old(self).read.idx() as int).unwrap()
                 && (is_esc_status(res.unwrap()) <==> has_bs(old(self).read.data(), old(self).read.idx() as int, final(self).read.idx() as int)),
             final(self).read.idx() >= old(self).read.idx(),
+            // every error is made by Parser::error: positioned inside the input (C20)
+            res.is_err() ==> err_ok(res->Err_0, old(self).read.data()),
 //@after /let mut status = ParseStatus::None;/
         let ghost s = self.read.data();
         let ghost i0 = self.read.idx() as int;
@@ -119,5 +123,7 @@ impl<'de, R: Reader<'de>> Parser<R> {
             res.is_ok() <==> lit_end(old(self).read.data(), old(self).read.idx() as int, literal.spec_bytes()).is_some(),
             res.is_ok() ==> final(self).read.idx() == old(self).read.idx() + literal.spec_bytes().len(),
             final(self).read.idx() >= old(self).read.idx(),
+            // every error is made by Parser::error: positioned inside the input (C20)
+            res.is_err() ==> err_ok(res->Err_0, old(self).read.data()),
 //@end
 }
